@@ -187,3 +187,42 @@ func abandonedReconnectLeavesState(c *Ctx, rule string) {
 	skip, trail := CanReachExitAvoiding(fn, set, leaves)
 	c.Ob(rule, "sio.Manager.reconnect/abandoned-cycle-leaves-reconnecting", set.Pos(), !skip, "after `state = reconnecting` a path returns without setting the state back and without attempting to connect (the `skipReconnect` exits): a manager closed while a reconnection attempt is in flight stays 'reconnecting' for ever, and clientSocket.Connect does not open a manager that claims to be reconnecting — the socket can never be connected again: "+trailString(p, trail))
 }
+
+// F68 (C15-D10): overlapping opens share one reconnection round.  The test that licenses a round after a failed
+// open — "no attempt has been counted yet" (backoff.attempts() == 0) — is answered by the back-off counter, which a
+// round that has just given up resets.  Unless the failed dial, the test and the round lie in one critical section
+// of connectMu (the mutex a round holds from start to end), a second open that waited for connectMu behind a whole
+// round finds the counter at 0 again and starts a second round: 2×ReconnectionAttempts attempts, reconnect_failed twice.
+func overlappingOpensShareOneRound(c *Ctx, rule string) {
+	p := c.P
+	n := 0
+	for _, fn := range p.SrcFuncs() {
+		if fn.Pkg == nil || fn.Pkg.Pkg.Name() != "sio" {
+			continue
+		}
+		rounds := CallsTo(Calls(fn), `\(\*sio\.Manager\)\.reconnect`)
+		tests := CallsTo(Calls(fn), `\(\*sio\.backoff\)\.attempts`)
+		if len(rounds) == 0 || len(tests) == 0 || strings.HasSuffix(FuncName(fn), ".reconnect") {
+			continue
+		}
+		li := LocksInherit(fn)
+		for _, t := range tests {
+			// only a test that decides about the round
+			decides := false
+			for _, r := range rounds {
+				if Dominates(t.Instr, r.Instr) && !r.IsGo() {
+					decides = true
+				}
+			}
+			if !decides {
+				continue
+			}
+			n++
+			c.Ob(rule, strings.NewReplacer("(*", "", ")", "").Replace(FuncName(fn))+"/round-licensed-outside-connectMu", t.Pos(), li.HoldsAny(t.Instr, "m.connectMu"),
+				"the back-off counter is asked whether a reconnection round may start after the failed open, outside connectMu: an open that waited behind another open's whole round (which resets the counter when it gives up) starts a second round; held="+li.Held(t.Instr).String())
+		}
+	}
+	if n == 0 {
+		c.Undecided("%s: no test of backoff.attempts() decides about a reconnection round any more", rule)
+	}
+}
